@@ -255,9 +255,12 @@ def serialize_cookie_date(v):
 
     if isinstance(v, (datetime, date)):
         v = v.timetuple()
-    r = time.strftime("%%s, %d-%%s-%Y %H:%M:%S GMT", v)
+    # the year is formatted here: strftime's %Y is not zero padded on every
+    # platform (glibc renders the year 5 as "5"), and a date with a short year
+    # is not read back as an expires attribute
+    r = time.strftime("%%s, %d-%%s-%%04d %H:%M:%S GMT", v)
 
-    return bytes_(r % (weekdays[v[6]], months[v[1]]), "ascii")
+    return bytes_(r % (weekdays[v[6]], months[v[1]], v[0]), "ascii")
 
 
 def serialize_samesite(v):
